@@ -20,7 +20,7 @@ func init() { register(c03{}) }
 
 func (c03) ID() string { return "C03" }
 func (c03) Rule() string {
-	return "systematic: every location of gen.Universe(L<=5|6, arity<=3) as the single labelled feature (keys gene and source) x every Delete/Erase (i,n) with 0<=i, i+n<=L and every Slice window (s,e) in [-L,L]^2 incl. negative spellings and wrap-around (empty windows excluded; ambiguous spans and full-length parts excluded for wrap-around); seeded: lengths<=60, tables<=8 features incl. source features, BasicSequence and seqio.GenBank hosts, GenBank hosts carry generated REFERENCE '(bases a to b; c to d)' lines whose expected clipping is computed by interval arithmetic. Oracle: residues per the window arithmetic; surviving features' base atoms == before minus removed in order and strand; cut ends open (all markers stripped on source after Slice), uncut ends keep their marker (markers on a junction of two abutting expected parts are don't-care); Delete: a feature that lost everything consists of sites at the cut; Erase: it is absent unless source; Slice: features with no base in the window are absent (a feature with a site inside the window is don't-care); coordinates within [0,newlen]; slice is linear; references clipped, re-based, dropped, renumbered. non-trivial: some feature shares a residue with the removed/kept boundary region; distinct: canonical case text. CLI layer: gts delete [-e], gts extract [-v] and gts split of the real binary (--no-cache) on generated records and the corpus record, single and as streams, judged by the C15 models (residues minus the union of the located regions; one record per distinct region, with -v the maximal unlocated stretches; pieces concatenate to the input; a stream's output equals the outputs of its records alone)."
+	return "systematic: every location of gen.Universe(L<=5|6, arity<=3) as the single labelled feature (keys gene and source) x every Delete/Erase (i,n) with 0<=i, i+n<=L and every Slice window (s,e) in [-L,L]^2 incl. negative spellings and wrap-around (empty windows excluded; ambiguous spans and full-length parts excluded for wrap-around); seeded: lengths<=60, tables<=8 features incl. source features, BasicSequence and seqio.GenBank hosts, GenBank hosts carry generated REFERENCE '(bases a to b; c to d)' lines whose expected clipping is computed by interval arithmetic. Oracle: residues per the window arithmetic; surviving features' base atoms == before minus removed in order and strand; cut ends open (all markers stripped on source after Slice), uncut ends keep their marker (markers on a junction of two abutting expected parts are don't-care); Delete: a feature that lost everything consists of sites at the cut; Erase: it is absent unless source; Slice: features with no base in the window are absent (a feature with a site inside the window is don't-care); coordinates within [0,newlen]; slice is linear; references clipped, re-based, dropped, renumbered. non-trivial: some feature shares a residue with the removed/kept boundary region; distinct: canonical case text. CLI layer: gts delete [-e], gts extract [-v] and gts split of the real binary (--no-cache) on generated records and the corpus record, single and as streams, judged by the C15 models (residues minus the union of the located regions; one record per distinct region, with -v the maximal unlocated stretches; pieces concatenate to the input; a stream's output equals the outputs of its records alone). A third of the GenBank hosts are AA records (REFERENCE lines count residues); a site-only feature that lies clear of the erased stretch must survive Erase."
 }
 func (c03) RequiredBuckets(tier string) []string {
 	var out []string
@@ -32,7 +32,7 @@ func (c03) RequiredBuckets(tier string) []string {
 			out = append(out, op+"|rel:"+a)
 		}
 	}
-	out = append(out, "Slice|wrap", "Slice|negative", "Slice|forward", "Slice|refs", "Slice|of-a-slice", "Slice|source-feature", "Slice|host:genbank")
+	out = append(out, "Slice|wrap", "Slice|negative", "Slice|forward", "Slice|refs", "Slice|of-a-slice", "Slice|source-feature", "Slice|host:genbank", "Slice|refs-of-a-protein-record", "Erase|site-only-feature-clear-of-the-region")
 	out = append(out, "cmd:delete", "cmd:delete -e", "cmd:extract", "cmd:extract -v", "cmd:split", "stream:records-independent", "cache-on:after-sibling")
 	return out
 }
@@ -93,6 +93,7 @@ type delCase struct {
 	refs     []seqio.Reference
 	topo     gts.Topology
 	region   *gts.Segment // the record is itself a slice (Fields.Region already set)
+	protein  bool         // an AA record: its REFERENCE lines count "residues"
 }
 
 func (k *delCase) enc() string {
@@ -103,6 +104,9 @@ func (k *delCase) enc() string {
 	s += "]"
 	if k.region != nil {
 		s += fmt.Sprintf(" region=%v", *k.region)
+	}
+	if k.protein {
+		s += " molecule=AA"
 	}
 	if len(k.refs) > 0 {
 		s += " refs=["
@@ -121,6 +125,12 @@ func (k *delCase) host() gts.Sequence {
 		refs := append([]seqio.Reference(nil), k.refs...)
 		f := seqio.GenBankFields{LocusName: "H", Molecule: gts.DNA, Topology: k.topo,
 			Date: seqio.Date{Year: 2020, Month: 1, Day: 1}, References: refs}
+		if k.protein {
+			f.Molecule = gts.AA
+			for i := range refs {
+				refs[i].Info = strings.Replace(refs[i].Info, "(bases ", "(residues ", 1)
+			}
+		}
 		if k.region != nil {
 			f.Region = *k.region
 		}
@@ -248,7 +258,17 @@ func (m c03) check(c *fw.Ctx, k *delCase) {
 				}
 			}
 			if nb == 0 && f.Key != "source" {
-				mustPresent = false // site-only feature: presence is don't-care
+				// a site-only feature has no residues to lose: it stays when it
+				// lies clear of the erased stretch; one that touches it is
+				// don't-care.
+				for _, q := range before {
+					if !(q.Hi < s || q.Lo > e) {
+						mustPresent = false
+					}
+				}
+				if mustPresent {
+					c.Bucket("Erase|site-only-feature-clear-of-the-region")
+				}
 			}
 		case "Slice":
 			if wrap {
@@ -369,7 +389,18 @@ func (m c03) check(c *fw.Ctx, k *delCase) {
 		}
 		if len(k.refs) > 0 {
 			c.Bucket("Slice|refs")
-			m.checkRefs(c, k, enc, gbf.References, s, e, wrap, L)
+			got := append([]seqio.Reference(nil), gbf.References...)
+			if k.protein {
+				c.Bucket("Slice|refs-of-a-protein-record")
+				for i := range got {
+					if strings.HasPrefix(got[i].Info, "(bases ") {
+						c.Violate("Slice:references-counter-word", enc, "(residues ...) in an AA record", got[i].Info)
+						return
+					}
+					got[i].Info = strings.Replace(got[i].Info, "(residues ", "(bases ", 1)
+				}
+			}
+			m.checkRefs(c, k, enc, got, s, e, wrap, L)
 		}
 	}
 }
@@ -598,6 +629,7 @@ func (m c03) Run(c *fw.Ctx) {
 			if r.Intn(2) == 0 {
 				k.topo = gts.Circular
 			}
+			k.protein = r.Intn(3) == 0
 			if r.Intn(3) == 0 {
 				h := 1 + r.Intn(500)
 				k.region = &gts.Segment{h, h + L}
